@@ -19,16 +19,26 @@ from vlib.runner import Check, Result, h64
 BASE = peg.G([
     ('rule', 'Tok', None, ('rx', '[ab]+')),
     ('rule', 'Num', None, ('apply', ('rx', '[0-9]'), ('py', 'int'))),
-    ('rule', 'Pair', ['ppar', 'vpar'], ('seq', [('ref', 'ppar'), ('py', 'vpar'), ('rep', ('lit', 'a'), None, 'vpar')])),
+    # (every function that has user-named locals also contains a repetition with literal bounds, a
+    # separated list, an option, a choice and a lookahead, so that whatever those constructs call or
+    # allocate lives next to the user's names)
+    ('rule', 'Pair', ['ppar', 'vpar'], ('seq', [('ref', 'ppar'), ('py', 'vpar'), ('rep', ('lit', 'a'), None, 'vpar'),
+                                                ('rep', ('lit', 'Q'), None, 2), ('opt', ('lit', 'Q')),
+                                                ('sep', ('lit', 'Q'), ('lit', '@'), False, False, True, False)])),
     ('class', 'Box', None, [('field', 'first', ('ref', 'Tok')), ('let', 'hidden', ('ref', 'Num')),
                             ('field', 'second', ('rep', ('lit', 'a'), 'hidden', 'hidden')),
                             ('requires', None, ('py', 'len(first) > 0 and hidden < 9')),
-                            ('field', 'third', ('py', '(first, hidden)'))]),
-    ('class', 'Gen', ['qpar', 'wpar'], [('field', 'item', ('ref', 'qpar')), ('field', 'tag', ('py', 'wpar'))]),
+                            ('field', 'third', ('py', '(first, hidden)')),
+                            ('pass', None, ('seq', [('rep', ('lit', 'Q'), 1, 2), ('lit', 'Q')])) if False else
+                            ('pass', None, ('opt', ('seq', [('rep', ('lit', 'Q'), 1, 2), ('expectnot', ('lit', 'Q'))])))]),
+    ('class', 'Gen', ['qpar', 'wpar'], [('field', 'item', ('ref', 'qpar')), ('field', 'tag', ('py', 'wpar')),
+                                        ('pass', None, ('rep', ('choice', [('lit', 'Q'), ('lit', 'QQ')]), 0, 3))]),
     ('rule', 'Use', None, ('let', 'kvar', ('ref', 'Tok'), ('seq', [
         ('right', ('lit', '-'), ('call', 'Pair', [('ref', 'Tok'), ('py', '1')], [])), ('py', 'kvar'),
-        ('right', ('lit', '-'), ('where', ('ref', 'Tok'), ('py', 'lambda v: v != kvar')))]))),
-    ('class', 'Rep', ['npar', 'mpar'], [('field', 'cells', ('rep', ('lit', 'a'), 'npar', 'npar')), ('field', 'tagr', ('py', '(npar, mpar)'))]),
+        ('right', ('lit', '-'), ('where', ('ref', 'Tok'), ('py', 'lambda v: v != kvar'))),
+        ('rep', ('lit', 'Q'), None, 3), ('longest', [('lit', 'Q'), ('lit', '')])]))),
+    ('class', 'Rep', ['npar', 'mpar'], [('field', 'cells', ('rep', ('lit', 'a'), 'npar', 'npar')), ('field', 'tagr', ('py', '(npar, mpar)')),
+                                        ('pass', None, ('rep', ('lit', 'Q'), 0, 2))]),
     ('rule', 'Lst', None, ('sep', ('choice', [('ref', 'Box'), ('ref', 'Tok')]), ('lit', ','), False, True, True, False)),
     ('rule', 'start', None, ('seq', [('ref', 'Box'), ('lit', ';'),
                                      ('call', 'Gen', [('choice', [('ref', 'Tok'), ('ref', 'Num')]), ('py', '"w"')], []),
